@@ -26,6 +26,10 @@ type PropConfig struct {
 	Bounded     []string `json:"bounded_cmds"`
 	Standins    []BoundedStandin `json:"bounded_standins"`
 	LevelNote   string   `json:"level_note"`
+	// CopyEndpoints: repository types ("backend/posix.tmpfile") that the functions under contract hand to io.Copy (or
+	// return as a body the HTTP layer copies from). The trusted contract of io.Copy (src.Read until the end, dst.Write)
+	// holds for them only while they do not implement io.ReaderFrom / io.WriterTo, which io.Copy prefers.
+	CopyEndpoints []string `json:"copy_endpoints"`
 }
 
 // BoundedStandin: an in-package test of the real code that stands in, within stated bounds, for a part of the property
@@ -466,7 +470,7 @@ func cmdCheck(mode string, argv []string) int {
 
 func isSafetyKind(k string) bool {
 	switch k {
-	case "idx", "slice", "nil", "div", "make", "assert", "panic":
+	case "idx", "slice", "nil", "div", "make", "alloc", "assert", "panic":
 		return true
 	}
 	return false
